@@ -60,10 +60,13 @@ def tok_class(src, toks, i):
     st, en, typ = toks[i][0], toks[i][1], toks[i][7]
     lex = src[max(st, 0):max(en + 1, 0)]
     content = typ in CONTENT
-    if content and lex[-1:] == b"\\" and src[en + 1:en + 2] >= b"\x80":
-        return "escape-rewind:backslash-multibyte"
-    if typ == "ERROR" and st > 0 and src[st - 1:st] == b"\\" and lex[:1] >= b"\x80":
-        return "escape-rewind:backslash-multibyte"
+    for k in range(3):      # the token ends (content) / starts (ERROR) on or inside the rune that follows a backslash
+        p = en - k
+        if content and st <= p and src[p:p + 1] == b"\\" and src[p + 1:p + 2] >= b"\x80" and all(b >= 0x80 for b in src[p + 1:en + 1]):
+            return "escape-rewind:backslash-multibyte"
+        p = st - 1 - k
+        if typ == "ERROR" and p >= 0 and src[p:p + 1] == b"\\" and lex[:1] >= b"\x80" and all(b >= 0x80 for b in src[p + 1:st]):
+            return "escape-rewind:backslash-multibyte"
     if content and src[en + 1:en + 3] == b"\\\n":
         return "escape-rewind:backslash-newline"
     if typ == "ERROR" and lex[:2] == b"\\\n":
@@ -287,7 +290,7 @@ def run(ctx):
 
     # c04.lex: seeded random sources; quick = one batch, thorough = 12 batches with derived seeds
     acc = new_acc()
-    per = ctx.n(40000, 50000)
+    per = ctx.n(30000, 50000)
     nb = ctx.n(1, 12)
     for b in range(nb):
         seed = ctx.sseed(STREAM if b == 0 else "%s:%d" % (STREAM, b))
